@@ -988,7 +988,9 @@ impl<'a> Session<'a> {
         if matches!(self.pos, Where::NotStarted | Where::Exited) {
             return out;
         }
-        for m in ns::maps(self.pid).iter().filter(|m| m.perms.contains('x') && m.path == self.bin) {
+        // executable mappings and the read-only first segment (ELF header and dynamic tables: where
+        // a breakpoint resolved to a line-table row of dead-stripped code, address 0.., lands)
+        for m in ns::maps(self.pid).iter().filter(|m| m.path == self.bin && (m.perms.contains('x') || (!m.perms.contains('w') && m.offset == 0))) {
             if !self.file_text.contains_key(&m.path) {
                 let d = std::fs::read(&m.path).unwrap_or_default();
                 self.file_text.insert(m.path.clone(), d);
